@@ -323,11 +323,12 @@ impl Database {
             // Run recovery through recuperator
             recuperator.run_recovery(&analysis).map_err(box_err)?;
 
-            // Truncate WAL
-            pager.write().truncate_wal().map_err(box_err)?;
-
             // Commit recovery transaction
             tx_ctx.commit_transaction().map_err(box_err)?;
+
+            // Checkpoint: the replayed changes only exist in the cache, so the log may only be
+            // truncated once they (and the header) are on disk.
+            pager.write().flush().map_err(box_err)?;
 
             Ok(())
         })?;
